@@ -1585,13 +1585,18 @@ class DataFieldRecordArray(
             If ``must_exist`` is set to ``True`` and a given field does not
             exist.
         """
+        # Work on a copy of the dictionary, so this instance is left untouched
+        # (including its field name list) in case a required field does not
+        # exist.
+        data_fields = dict(self._data_fields)
         for (old_fname, new_fname) in conversions.items():
             if old_fname in self.field_name_list:
-                self._data_fields[new_fname] = self._data_fields.pop(old_fname)
+                data_fields[new_fname] = data_fields.pop(old_fname)
             elif must_exist is True:
                 raise KeyError(
                     f'The required field "{old_fname}" does not exist!')
 
+        self._data_fields = data_fields
         self._field_name_list = list(self._data_fields.keys())
 
     def tidy_up(
